@@ -86,6 +86,19 @@ func ruleC04_2(c *Ctx) {
 						return ok && org(u) == "p0.Signatures"
 					}, true)
 					c.check(okApp, R, fname(sg), "stored signature list derives from the previous list", st.Pos(), "append(mb.Signatures, new)", "Sign replaces the signature list: earlier signatures are lost")
+					// ... and it is a plain append to the whole previous list: an append onto a prefix (list[:i]) or any
+					// other construction can overwrite or drop earlier signatures
+					plain, how := plainAppendTo(st.Val, st, func(v ssa.Value) bool {
+						u, ok := v.(*ssa.UnOp)
+						return ok && org(u) == "p0.Signatures"
+					}, 0)
+					if okApp {
+						if plain {
+							c.ok(R, fname(sg), "the new list is append(previous list, new signature)", st.Pos(), how)
+						} else {
+							c.undecided(R, fname(sg), "the new list is append(previous list, new signature)", st.Pos(), "the stored list is "+how+", not a plain append to the whole previous list: that every earlier signature survives (append onto a prefix list[:i] overwrites the elements behind it) is not decided")
+						}
+					}
 				}
 			}
 		}
@@ -1242,4 +1255,51 @@ func ruleC04_6(c *Ctx) {
 		}
 	}
 	c.ok(R, fn, "no package-level state consulted", f.Pos(), "only error sentinels")
+}
+
+// plainAppendTo: v is builtin append(base, ...) with base the previous list itself (isOld), possibly through one
+// unexported helper that returns append(its parameter, ...) on every path.
+func plainAppendTo(v ssa.Value, at ssa.Instruction, isOld func(ssa.Value) bool, depth int) (bool, string) {
+	r := resolve(v, at)
+	call, ok := r.(*ssa.Call)
+	if !ok {
+		if ex, isEx := r.(*ssa.Extract); isEx {
+			call, ok = ex.Tuple.(*ssa.Call)
+		}
+		if !ok {
+			return false, short(org(v))
+		}
+	}
+	if calleeName(call) == "builtin:append" {
+		base := resolve(call.Call.Args[0], call)
+		if isOld(base) {
+			return true, "append(previous list, …)"
+		}
+		return false, "append(" + short(org(call.Call.Args[0])) + ", …)"
+	}
+	g := call.Call.StaticCallee()
+	if g == nil || g.Blocks == nil || depth > 0 {
+		return false, short(org(v))
+	}
+	// which parameter receives the old list?
+	pi := -1
+	for i, a := range call.Call.Args {
+		if isOld(resolve(a, call)) {
+			pi = i
+		}
+	}
+	if pi < 0 {
+		return false, calleeName(call) + "(…) without the previous list"
+	}
+	prm := g.Params[pi]
+	for _, ret := range returnsOf(g) {
+		if len(ret.Results) == 0 {
+			return false, calleeName(call) + "(…)"
+		}
+		ok, how := plainAppendTo(ret.Results[0], ret, func(x ssa.Value) bool { return x == ssa.Value(prm) }, depth+1)
+		if !ok {
+			return false, calleeName(call) + " returning " + how
+		}
+	}
+	return true, calleeName(call) + " = append(previous list, …)"
 }
